@@ -97,6 +97,8 @@ def run(R, only=None):
     with ThreadPoolExecutor(min(6, len(batches))) as ex:
         outs = list(ex.map(one, batches))
     fresh_jobs = [(b, rnd.randrange(len(b["ops"]))) for b in batches for _ in range(2)]
+    # the cards over one model file: each of them also as the first call of a fresh process (what was loaded before must not matter)
+    fresh_jobs += [(batches[0], i) for i, op in enumerate(batches[0]["ops"]) if op[0] == "card_file"]
     with ThreadPoolExecutor(8) as ex:
         fouts = list(ex.map(fresh, fresh_jobs))
     for b, o in zip(batches, outs):
